@@ -65,6 +65,10 @@ func DateFromProto(proto *dtpb.Date) (Date, error) {
 	case dtpb.Date_YEAR:
 		l = yearLayout
 	}
+	// A Date is a calendar date without a zone: the element's time zone only says
+	// in which zone the date was taken at midnight. Keep the date, at midnight UTC
+	// like the Dates ParseDate produces, so that equal dates compare equal.
+	t = time.Date(t.Year(), t.Month(), t.Day(), 0, 0, 0, 0, time.UTC)
 	return Date{t, l}, nil
 }
 
